@@ -11,9 +11,9 @@ use crate::ev::Ctx;
 use crate::tape::Tape;
 use serde_json::{json, Value};
 
-pub const NSYM: usize = 31;
+pub const NSYM: usize = 35;
 pub const SYM_NAMES: [&str; NSYM] =
-    ["ident", "mut ident", "ref ident", "r#ident", "_", "(a,b)", "N(a)", "N(a,_)", "S{a}", "&a", "ident==fn name", "ident==would-be generated argK", "ident==fn name + '_'", "N(fn name)", "N(fn name + '_')", "N(argK)", "(a,b,c)", "N(_)", "N(mut a)", "N(ref a)", "S{mut a}", "N(ref mut a)", "a @ _", "(a,_)", "NN(N(a))", "S{a: x}", "[a,_]", "mut ident==fn name", "N(mut fn name)", "r#<fn name>", "r#<would-be generated argK>"];
+    ["ident", "mut ident", "ref ident", "r#ident", "_", "(a,b)", "N(a)", "N(a,_)", "S{a}", "&a", "ident==fn name", "ident==would-be generated argK", "ident==fn name + '_'", "N(fn name)", "N(fn name + '_')", "N(argK)", "(a,b,c)", "N(_)", "N(mut a)", "N(ref a)", "S{mut a}", "N(ref mut a)", "a @ _", "(a,_)", "NN(N(a))", "S{a: x}", "[a,_]", "mut ident==fn name", "N(mut fn name)", "r#<fn name>", "r#<would-be generated argK>", "N(a @ _)", "(a @ N(_), _)", "[_, a @ ..]", "NN(a @ N(_))"];
 const RAW: [&str; 7] = ["r#type", "r#match", "r#loop", "r#move", "r#box", "r#dyn", "r#in"];
 pub const DEFAULT_fname: &str = "foo";
 
@@ -97,11 +97,16 @@ pub fn param(sym: usize, i: usize, len: usize, fn_name: &str) -> ParamSpec {
             let raw = if fname.starts_with("r#") { fname.to_string() } else { format!("r#{fname}") };
             p(raw, None, vec![fname.into()])
         }
-        _ => {
+        30 => {
             let k = if len > 1 { (i + 1) % len } else { 0 };
             let n = format!("arg{k}");
             p(format!("r#{n}"), Some(format!("r#{n}")), vec![n])
         }
+        // a single binding with an `@` sub-pattern of its own inside a destructure: only the name is lifted
+        31 => p(format!("N({b} @ _)"), Some(b.clone()), vec![b]),
+        32 => p(format!("({b} @ N(_), _)"), Some(b.clone()), vec![b]),
+        33 => p(format!("[_, {b} @ ..]"), Some(b.clone()), vec![b]),
+        _ => p(format!("NN({b} @ N(_))"), Some(b.clone()), vec![b]),
     }
 }
 
@@ -392,7 +397,10 @@ fn e2_type_and_value(sym: usize, i: usize) -> (String, String) {
     let v = 11 * (i as i64 + 1);
     match sym {
         5 => ("(i32, i32)".into(), format!("({v}, {})", v + 1)),
-        6 | 13 | 14 | 15 | 18 | 19 | 21 | 28 => ("N".into(), format!("N({v})")),
+        6 | 13 | 14 | 15 | 18 | 19 | 21 | 28 | 31 => ("N".into(), format!("N({v})")),
+        32 => ("(N, i32)".into(), format!("(N({v}), {})", v + 1)),
+        33 => ("[i32; 2]".into(), format!("[{v}, {}]", v + 1)),
+        34 => ("NN".into(), format!("NN(N({v}))")),
         23 => ("(i32, i32)".into(), format!("({v}, {})", v + 1)),
         24 => ("NN".into(), format!("NN(N({v}))")),
         26 => ("[i32; 2]".into(), format!("[{v}, {}]", v + 1)),
